@@ -172,13 +172,11 @@ func (e *LEngine) Close()                 { e.C.Close() }
 // contract key) of a state view.
 func Dump(v *storage.CacheDB) map[string]string {
 	d := map[string]string{}
-	for p := 0; p < 256; p++ {
-		it := v.NewIterator([]byte{byte(p)})
-		for ok := it.First(); ok; ok = it.Next() {
-			d[string(it.Key())] = string(it.Value())
-		}
-		it.Release()
+	it := v.NewIterator(nil) // CacheDB prepends ST_STORAGE: the whole contract-storage range
+	for ok := it.First(); ok; ok = it.Next() {
+		d[string(it.Key())] = string(it.Value())
 	}
+	it.Release()
 	return d
 }
 
